@@ -189,4 +189,52 @@ example : decC #[0, 1, 254] 4 = .err .valueError ∧ decPy #[0, 1, 254] 4 = .err
 example : (encPy ((Array.range 128).map UInt8.ofNat)).length = 128 + (128 + 126) / 127 := by
   decide +kernel
 
+/-! ### The implementation the package selects, in both configurations -/
+
+/-- The selecting statement of `compression/__init__.py` (regenerated from its AST) is the one modelled by
+`select`: a single statement binds `rle_impl`; its `try` body is exactly the import of `_rle`, it catches
+exactly `ImportError`, the handler is exactly the import of `rle`, and the handler reads no name that is not
+bound before it runs (otherwise the fallback configuration dies with NameError while the other one works). -/
+theorem selection_tied :
+    Generated.Rle.selStatements = 1 ∧ Generated.Rle.selTryImports = ["_rle"] ∧
+    Generated.Rle.selCatches = ["ImportError"] ∧ Generated.Rle.selHandlerImports = ["rle"] ∧
+    Generated.Rle.selOtherStatements = 0 ∧ Generated.Rle.selUnboundInHandler = [] := by decide
+
+/-- `rle.py` keeps nothing between calls (regenerated from its AST: no `global`, no module-level mutable object
+read by a function, no memoising decorator, no mutable default): the model's `encPy`/`decPy` are functions of
+their arguments, so a result cannot be changed by a later call. -/
+theorem rle_stateless_tied : Generated.Rle.rleModuleState = [] := by decide
+
+/-- Whatever the configuration (extension importable or not), the selected implementation honours the whole
+contract, and the two configurations are indistinguishable. -/
+theorem selected_honours_contract (cfg : Bool) (d e : Bytes) (n : Nat) :
+    specDec ((select cfg).enc d) = some d.toList ∧
+    (∀ h ∈ headers ((select cfg).enc d), h ≠ 128) ∧
+    ((select cfg).enc d).length ≤ d.size + (d.size + 126) / 127 ∧
+    (select cfg).dec ⟨(select cfg).enc d⟩ d.size = .ok d.toList ∧
+    (select cfg).dec e n ≠ .oob ∧
+    (∀ r, (select cfg).dec e n = .ok r → r.length = n ∨ (e = #[128] ∧ r = [])) ∧
+    (∀ x, (select cfg).dec e n = .err x → x = .valueError) ∧
+    (select cfg).enc d = (select (!cfg)).enc d ∧ (select cfg).dec e n = (select (!cfg)).dec e n := by
+  have hdec : ∀ (c : Bool) (e : Bytes) (n : Nat), (select c).dec e n = toC (decPy e n) := by
+    intro c e n
+    cases c
+    · show (match decPy e n with | .ok r => CRes.ok r | .error x => CRes.err x) = toC (decPy e n)
+      cases decPy e n <;> rfl
+    · exact impl_agree_dec e n
+  have henc : ∀ (c : Bool) (d : Bytes), (select c).enc d = encPy d := by
+    intro c d; cases c <;> rfl
+  simp only [henc, hdec]
+  refine ⟨spec_decodes_enc d, enc_no_noop d, enc_size_bound d, ?_, ?_, ?_, ?_, trivial, trivial⟩
+  · rw [dec_enc]; rfl
+  · cases decPy e n <;> simp [toC]
+  · intro r hr
+    cases h : decPy e n with
+    | ok r' => rw [h] at hr; simp [toC] at hr; subst hr; exact dec_exact_or_reject e n r' h
+    | error x => rw [h] at hr; simp [toC] at hr
+  · intro x hx
+    cases h : decPy e n with
+    | ok r' => rw [h] at hx; simp [toC] at hx
+    | error y => rw [h] at hx; simp [toC] at hx; subst hx; exact dec_rejects_valueError e n y h
+
 end PsdVerif.C05
